@@ -28,6 +28,33 @@ Proof.
 Qed.
 Print Assumptions C01_absent.
 
+(* ... and with --redactFieldNames active for the line (field-name mode, the remaining flag outside the
+   selective mode): the leaf found at the same index path of the field-name-mode output is the same strong
+   verdict. Positions are index paths and keys are renamed in this mode, so the statement asks that the pseudonym
+   function merges no two sibling keys of the input ([sib_ok]; cf. C13); '$field' references are renamed, not
+   redacted, and are outside the claim. *)
+From Proofs Require Import RfnSim RfnLine SelLine.
+Open Scope string_scope.
+Theorem C01_absent_fieldname_mode : forall tb cs c A ins k v p leaf,
+  re c = None -> ~ In (""%string, Exempt) (all_entries tb) ->
+  zone_value ins k v = true -> nodup_keys v -> sib_ok A v ->
+  jget v p = Some leaf -> is_leaf leaf -> nd leaf -> clear tb v p = true ->
+  exists d, strong cs c leaf d /\
+            jget (if nss c then ns_member A k (cmd_member tb cs c A true ins k v) else cmd_member tb cs c A true ins k v) p
+            = Some (apply_verdict A d leaf).
+Proof.
+  intros tb cs c A ins k v p leaf Hre He Hz Hn Hk Hg Hl Hd Hc.
+  destruct (C01_absent tb cs c A ins k v p leaf Hre He Hz Hn Hg Hl Hc) as (d & Hs & Hout).
+  exists d. split; [exact Hs|].
+  pose proof (cmd_member_pl tb cs c A Hre ins k v Hk Hn p leaf Hg Hl Hd Hc) as E.
+  assert (Hp : p <> []).
+  { intros ->. simpl in Hg. injection Hg as <-. unfold zone_value in Hz. destruct v; try discriminate; contradiction. }
+  destruct (nss c); [|now rewrite <- E].
+  unfold ns_member in *. destruct (key_in k ns_fields); [|now rewrite <- E].
+  rewrite (jget_hash_str A _ p Hp). rewrite (jget_hash_str A _ p Hp) in Hout. now rewrite <- E.
+Qed.
+Print Assumptions C01_absent_fieldname_mode.
+
 (* the client address: with --redactIPs a string attr.remote becomes the fixed placeholder *)
 Theorem C01_remote : forall tb cs c A g rfn s,
   ips c = true -> attr_member tb cs c A g rfn "remote" (JStr s) = JStr ip_placeholder.
